@@ -1,23 +1,36 @@
 /-
   C14 — LinearLeastSquares returns the documented minimiser whatever the solver.
 
-  Theorems are about (a) `Gen.C14.getAlg`, the decision function REGENERATED from
-  `LinearLeastSquares._get_alg` on every check, and (b) the generic set-up definitions of
-  `Model/C14.lean` (the very definitions the driver executes over `Rat`), instantiated at real
-  inner-product spaces `E` (unknown), `F` (data), `H` (range of `G`).  `A`, `G` are linear maps with
-  adjoints `AH`, `GH` (`IsAdj`); `g` enters through its (sub)gradient relation `dg` and the prox
-  characterisation `IsProxOf` (optimality condition of `argmin ½‖w - v‖² + α g(w)`).
+  Every theorem is about definitions REGENERATED from sigpy/app.py on every check:
+  (a) `Gen.C14.getAlg`, the decision function of `LinearLeastSquares._get_alg` (Gen/C14Select.lean), and
+  (b) `Gen.C14.cgArgs / gmArgs / pdhgArgsNoG / pdhgArgsG / admmArgsNoG / admmArgsG` (Gen/C14Setup.lean): the
+      arguments `_get_ConjugateGradient`, `_get_GradientMethod`, `_get_PrimalDualHybridGradient`, `_get_ADMM`
+      hand to the solver classes (system operators, right-hand sides, the closures `gradf`, `minL_x`, `minL_v` as
+      functions of the captured state, prox trees, gammas, step rules, the operator given to `MaxEig`, the ADMM
+      constraint), as terms over the vocabulary of Model/C14Base.lean with the source's branch structure —
+      the very definitions the driver executes over `Rat` — instantiated here at real inner-product spaces
+      `E` (unknown), `F` (data), `H` (range of `G`).
+  `A`, `G` are linear maps with adjoints `AH`, `GH` (`IsAdj`); `g` enters through its (sub)gradient relation `dg`
+  and the prox characterisation `IsProxOf` (optimality condition of `argmin ½‖w - v‖² + α g(w)`).
+
+  Bridging lemmas (`cgArgs_sys`, `cgArgs_rhs`, `gm_gradient`, `gmArgs_eig`, `gmArgs_alpha`, `pdhgArgs_parts_*`,
+  `pdhgArgs_steps`, `pdhgArgs_eig_*`, `admmArgs_*`) state the closed form of each generated component; they are
+  proved by unfolding + case split + `module`, so a commuted sum / a temporary / `x * a` for `a * x` in the
+  source does not break them, while a dropped or wrong term does.  Everything else is proved FROM them.
 
   What is proved: the decision table; CG system ⇔ stationarity ⇔ (λ ≥ 0) global minimiser, unique when
   positive definite; `gradf` is the gradient and the step-size operator is the Hessian; the data-term
   conjugate/biconjugate identity and the prox identities of `L2Reg`/`Conj`; fixed points of the PDHG
   and ADMM set-ups are exactly the KKT points of the documented objective, for every routing of
-  `lamda`, `z`, `proxg`, `G`; KKT points are global minimisers (convex `g`, λ ≥ 0).
+  `lamda`, `z`, `proxg`, `G`; KKT points are global minimisers (convex `g`, λ ≥ 0); `default_steps`: the default
+  `alpha` / `tau` / `sigma` satisfy the step conditions of the solvers' convergence theorems when `max_eig` bounds
+  the Rayleigh quotient of the operator handed to `MaxEig`.
   Not proved here (validated by correspondence + search): convergence of the solver classes to those
-  fixed points (C12/C13), complex data, floating point, the power-method estimate of the step sizes.
+  fixed points (C12/C13), complex data, floating point, the power method's under-estimate of `max_eig`.
 -/
 import SigpyVerif.Model.C14
 import SigpyVerif.Gen.C14Select
+import SigpyVerif.Gen.C14Setup
 import Mathlib.Analysis.InnerProductSpace.Basic
 import Mathlib.Algebra.QuadraticDiscriminant
 import Mathlib.Tactic.Module
@@ -86,6 +99,9 @@ theorem select_total (s : Option String) (p g : Bool) :
 /-! ## 2. the smooth part, its gradient, CG and GradientMethod set-ups -/
 open scoped RealInnerProductSpace
 set_option linter.unusedSectionVars false
+set_option linter.unusedTactic false
+set_option linter.unreachableTactic false
+set_option linter.unusedSimpArgs false
 
 variable {E F H : Type} [NormedAddCommGroup E] [InnerProductSpace ℝ E]
   [NormedAddCommGroup F] [InnerProductSpace ℝ F] [NormedAddCommGroup H] [InnerProductSpace ℝ H]
@@ -118,26 +134,34 @@ theorem obj_expand (A : E →ₗ[ℝ] F) (AH : F →ₗ[ℝ] E) (hA : IsAdj A AH
   simp only [RCLike.conj_to_real]
   ring
 
+/-! ### bridging: normal forms of the GENERATED `cgArgs` (robust to reordering of sums in the source) -/
+
+/-- the system operator `_get_ConjugateGradient` hands to `ConjugateGradient` is `AᴴA + λI`
+    (for `λ = 0` the source skips the `λI` term) -/
+theorem cgArgs_sys (A : E →ₗ[ℝ] F) (AH : F →ₗ[ℝ] E) (y : F) (lam : ℝ) (z : Option E) (x : E) :
+    (cgArgs A AH y lam z).sys x = AH (A x) + lam • x := by
+  by_cases h : lam = 0
+  · subst h
+    simp only [cgArgs, ne_eq, not_true_eq_false, if_false, opAdd, opN, opSmul, opId]; first | done | module
+  · simp only [cgArgs, ne_eq, h, not_false_eq_true, if_true, opAdd, opN, opSmul, opId]; first | done | module
+
+/-- the right-hand side is `Aᴴy + λz` (`z = 0` when not given; the source adds `λz` only for `λ ≠ 0`) -/
+theorem cgArgs_rhs (A : E →ₗ[ℝ] F) (AH : F →ₗ[ℝ] E) (y : F) (lam : ℝ) (z : Option E) :
+    (cgArgs A AH y lam z).rhs = AH y + lam • zOf z := by
+  by_cases h : lam = 0
+  · subst h
+    cases z <;> simp only [cgArgs, ne_eq, not_true_eq_false, if_false, zOf, Option.getD_none, Option.getD_some] <;>
+      first | done | module
+  · cases z <;> simp only [cgArgs, ne_eq, h, not_false_eq_true, if_true, zOf, Option.getD_none, Option.getD_some,
+      smul_zero] <;> first | done | module
+
 /-- the CG set-up is the normal equation -/
 theorem cgSys_cgRhs_eq_normal (A : E →ₗ[ℝ] F) (AH : F →ₗ[ℝ] E) (y : F) (lam : ℝ) (z : Option E) (x : E) :
-    cgSys A AH lam x = cgRhs AH y lam z ↔ grad A AH y lam (zOf z) x = 0 := by
-  unfold cgSys cgRhs grad zOf addLamZ
-  by_cases hl : lam = 0
-  · subst hl
-    simp only [ne_eq, not_true_eq_false, if_false, zero_smul, add_zero, map_sub, sub_eq_zero]
-  · simp only [ne_eq, hl, not_false_eq_true, if_true, map_sub]
-    cases z with
-    | none =>
-      simp only [Option.getD_none, sub_zero]
-      rw [← sub_eq_zero]
-      have : AH (A x) + lam • x - AH y = AH (A x) - AH y + lam • x := by abel
-      rw [this]
-    | some z =>
-      simp only [Option.getD_some]
-      rw [← sub_eq_zero]
-      have : AH (A x) + lam • x - (AH y + lam • z) = AH (A x) - AH y + lam • (x - z) := by
-        rw [smul_sub]; abel
-      rw [this]
+    (cgArgs A AH y lam z).sys x = (cgArgs A AH y lam z).rhs ↔ grad A AH y lam (zOf z) x = 0 := by
+  rw [cgArgs_sys, cgArgs_rhs, ← sub_eq_zero]
+  have : AH (A x) + lam • x - (AH y + lam • zOf z) = grad A AH y lam (zOf z) x := by
+    simp only [grad, map_sub]; module
+  rw [this]
 
 /-- a first-order term that never makes a quadratic negative vanishes -/
 theorem lin_zero_of_quad_nonneg (b c : ℝ) (h : ∀ t : ℝ, 0 ≤ t * b + t ^ 2 * c) : b = 0 := by
@@ -148,7 +172,7 @@ theorem lin_zero_of_quad_nonneg (b c : ℝ) (h : ∀ t : ℝ, 0 ≤ t * b + t ^ 
 
 theorem cg_normal_eq (A : E →ₗ[ℝ] F) (AH : F →ₗ[ℝ] E) (hA : IsAdj A AH) (y : F) (lam : ℝ) (hl : 0 ≤ lam)
     (z : Option E) (x : E) :
-    cgSys A AH lam x = cgRhs AH y lam z ↔ ∀ x', smooth A y lam (zOf z) x ≤ smooth A y lam (zOf z) x' := by
+    (cgArgs A AH y lam z).sys x = (cgArgs A AH y lam z).rhs ↔ ∀ x', smooth A y lam (zOf z) x ≤ smooth A y lam (zOf z) x' := by
   rw [cgSys_cgRhs_eq_normal]
   constructor
   · intro hg x'
@@ -173,7 +197,7 @@ theorem cg_normal_eq (A : E →ₗ[ℝ] F) (AH : F →ₗ[ℝ] E) (hA : IsAdj A 
 /-- with `AᴴA + λI` positive definite the solution of the CG system is the unique minimiser -/
 theorem cg_unique_minimiser (A : E →ₗ[ℝ] F) (AH : F →ₗ[ℝ] E) (hA : IsAdj A AH) (y : F) (lam : ℝ)
     (z : Option E) (x : E) (hpd : ∀ h : E, h ≠ 0 → 0 < ‖A h‖ ^ 2 + lam * ‖h‖ ^ 2)
-    (hx : cgSys A AH lam x = cgRhs AH y lam z) (x' : E) (hne : x' ≠ x) :
+    (hx : (cgArgs A AH y lam z).sys x = (cgArgs A AH y lam z).rhs) (x' : E) (hne : x' ≠ x) :
     smooth A y lam (zOf z) x < smooth A y lam (zOf z) x' := by
   rw [cgSys_cgRhs_eq_normal] at hx
   have := obj_expand A AH hA y lam (zOf z) x (x' - x)
@@ -182,30 +206,50 @@ theorem cg_unique_minimiser (A : E →ₗ[ℝ] F) (AH : F →ₗ[ℝ] E) (hA : I
   have := hpd (x' - x) (sub_ne_zero.mpr hne)
   linarith
 
-/-- the closure `gradf` of the GradientMethod set-up is the gradient of the smooth part
-    (the first-order term of `obj_expand`), for every routing of `lamda` and `z` -/
-theorem gm_gradient (A : E →ₗ[ℝ] F) (AH : F →ₗ[ℝ] E) (y : F) (lam : ℝ) (z : Option E) (x : E) :
-    gmGrad A AH y lam z x = grad A AH y lam (zOf z) x := by
-  unfold gmGrad grad zOf
+/-- the closure `gradf` of the GENERATED GradientMethod set-up is the gradient of the smooth part
+    (the first-order term of `obj_expand`), for every routing of `lamda` and `z` (and whatever `alpha`) -/
+theorem gm_gradient (A : E →ₗ[ℝ] F) (AH : F →ₗ[ℝ] E) (y : F) (lam : ℝ) (z : Option E) (alpha : Option ℝ)
+    (me : ℝ) (x : E) :
+    (gmArgs A AH y lam z alpha me).gradf x = grad A AH y lam (zOf z) x := by
+  by_cases h : lam = 0
+  · subst h
+    cases z <;> simp only [gmArgs, opN, grad, zOf, ne_eq, not_true_eq_false, if_false, Option.getD_none,
+      Option.getD_some, map_sub] <;> first | done | module
+  · cases z <;> simp only [gmArgs, opN, grad, zOf, ne_eq, h, not_false_eq_true, if_true, Option.getD_none,
+      Option.getD_some, sub_zero, map_sub] <;> first | done | module
+
+/-- `MaxEig` is run exactly when `alpha` is not given, and the operator it gets is the Hessian `AᴴA + λI` of the
+    smooth part -/
+theorem gmArgs_eig (A : E →ₗ[ℝ] F) (AH : F →ₗ[ℝ] E) (y : F) (lam : ℝ) (z : Option E) (me : ℝ) :
+    (∃ f, (gmArgs A AH y lam z none me).eig = .primal f ∧ ∀ h, f h = AH (A h) + lam • h) ∧
+    ∀ a, (gmArgs A AH y lam z (some a) me).eig = .none := by
+  refine ⟨⟨_, rfl, fun h => ?_⟩, fun a => rfl⟩
   by_cases hl : lam = 0
-  · subst hl; simp
-  · cases z <;> simp [hl]
+  · subst hl
+    simp only [ne_eq, not_true_eq_false, if_false, opAdd, opN, opSmul, opId]; first | done | module
+  · simp only [ne_eq, hl, not_false_eq_true, if_true, opAdd, opN, opSmul, opId]; first | done | module
+
+/-- the step size handed to `GradientMethod`: the caller's `alpha`, else `1/max_eig` (`1` when `max_eig == 0`) -/
+theorem gmArgs_alpha (A : E →ₗ[ℝ] F) (AH : F →ₗ[ℝ] E) (y : F) (lam : ℝ) (z : Option E) (me : ℝ) :
+    (gmArgs A AH y lam z none me).alpha = (if me = 0 then 1 else 1 / me) ∧
+    ∀ a, (gmArgs A AH y lam z (some a) me).alpha = a := ⟨rfl, fun _ => rfl⟩
 
 /-- the operator whose largest eigenvalue sets the default step is the Hessian `AᴴA + λI` of the smooth part:
-    `gradf (x + h) - gradf x = gmEigOp h` -/
-theorem gmEigOp_eq_hessian (A : E →ₗ[ℝ] F) (AH : F →ₗ[ℝ] E) (y : F) (lam : ℝ) (z : Option E) (x h : E) :
-    gmGrad A AH y lam z (x + h) - gmGrad A AH y lam z x = gmEigOp A AH lam h := by
-  rw [gm_gradient, gm_gradient]
-  unfold grad gmEigOp cgSys
-  by_cases hl : lam = 0
-  · subst hl; simp
-  · simp only [ne_eq, hl, not_false_eq_true, if_true, map_add, map_sub, smul_sub, smul_add]; abel
+    `gradf (x + h) - gradf x = eig h` -/
+theorem gmEigOp_eq_hessian (A : E →ₗ[ℝ] F) (AH : F →ₗ[ℝ] E) (y : F) (lam : ℝ) (z : Option E) (me : ℝ) :
+    ∃ f, (gmArgs A AH y lam z none me).eig = .primal f ∧
+      ∀ x h, (gmArgs A AH y lam z none me).gradf (x + h) - (gmArgs A AH y lam z none me).gradf x = f h := by
+  obtain ⟨⟨f, hf, hf'⟩, -⟩ := gmArgs_eig A AH y lam z me
+  refine ⟨f, hf, fun x h => ?_⟩
+  rw [gm_gradient, gm_gradient, hf']
+  simp only [grad, map_add, map_sub]; module
 
 /-- without `proxg`, a gradient step with any non-zero step size leaves `x` fixed iff `x` minimises the
     documented objective (`g = 0`) -/
 theorem gm_fixed_point_iff_minimiser (A : E →ₗ[ℝ] F) (AH : F →ₗ[ℝ] E) (hA : IsAdj A AH) (y : F) (lam : ℝ)
-    (hl : 0 ≤ lam) (z : Option E) (alpha : ℝ) (ha : alpha ≠ 0) (x : E) :
-    x - alpha • gmGrad A AH y lam z x = x ↔
+    (hl : 0 ≤ lam) (z : Option E) (alpha : Option ℝ) (me : ℝ) (x : E)
+    (ha : (gmArgs A AH y lam z alpha me).alpha ≠ 0) :
+    x - (gmArgs A AH y lam z alpha me).alpha • (gmArgs A AH y lam z alpha me).gradf x = x ↔
       ∀ x', smooth A y lam (zOf z) x ≤ smooth A y lam (zOf z) x' := by
   rw [← cg_normal_eq A AH hA y lam hl, cgSys_cgRhs_eq_normal, gm_gradient, sub_eq_self, smul_eq_zero]
   simp [ha]
@@ -346,25 +390,62 @@ theorem kkt_is_minimiser (A : E →ₗ[ℝ] F) (AH : F →ₗ[ℝ] E) (hA : IsAd
   rw [e, e, h1]
   linarith
 
-/-! ## 5. PrimalDualHybridGradient set-up: fixed points = KKT points -/
+/-! ## 5. PrimalDualHybridGradient set-up (GENERATED `pdhgArgsNoG` / `pdhgArgsG`): fixed points = KKT points -/
+
+/-- what `_get_PrimalDualHybridGradient` hands over without `G`: the dual prox of the data term, `A`, `A.H`,
+    `gamma_primal = λ` (when positive), `gamma_dual = 1` -/
+theorem pdhgArgs_parts_noG (A : E →ₗ[ℝ] F) (AH : F →ₗ[ℝ] E) (y : F) (lam : ℝ) (z : Option E) (hasProxg : Bool)
+    (tau sigma : Option ℝ) (me : ℝ) :
+    let su := pdhgArgsNoG A AH y lam z hasProxg tau sigma me
+    su.proxfc = .l2reg 1 (some (-y)) ∧ (∀ x, su.K x = A x) ∧ (∀ u, su.KH u = AH u) ∧
+      su.gammaP = (if 0 < lam then lam else 0) ∧ su.gammaD = 1 := by
+  refine ⟨?_, fun _ => ?_, fun _ => ?_, ?_, ?_⟩ <;> simp only [pdhgArgsNoG]
+
+/-- with `G`: `Stack([L2Reg(1, -y), Conj(proxg or NoOp)])`, `Vstack([A, G])` and its adjoint, `gamma_dual = 0` -/
+theorem pdhgArgs_parts_G (A : E →ₗ[ℝ] F) (AH : F →ₗ[ℝ] E) (G : E →ₗ[ℝ] H) (GH : H →ₗ[ℝ] E) (y : F) (lam : ℝ)
+    (z : Option E) (hasProxg : Bool) (tau sigma : Option ℝ) (me : ℝ) :
+    let su := pdhgArgsG A AH G GH y lam z hasProxg tau sigma me
+    su.proxfc = { p1 := .l2reg 1 (some (-y)), p2 := .conj (userTree hasProxg) } ∧ (∀ x, su.K x = ⟨A x, G x⟩) ∧
+      (∀ u, su.KH u = AH u.fst + GH u.snd) ∧ su.gammaP = (if 0 < lam then lam else 0) ∧ su.gammaD = 0 := by
+  refine ⟨?_, fun _ => ?_, fun _ => ?_, ?_, ?_⟩
+  · cases hasProxg <;> simp [pdhgArgsG, userTree]
+  · simp only [pdhgArgsG, opVstack]
+  · simp only [pdhgArgsG, opHstack]; first | done | module
+  · simp only [pdhgArgsG]
+  · simp only [pdhgArgsG]
+
+/-- the step sizes handed to the solver: `tau = 1/max_eig` when not given (then `sigma` defaults to 1);
+    `sigma = 1/max_eig` when only `tau` is given; the caller's values otherwise — with or without `G` -/
+theorem pdhgArgs_steps (A : E →ₗ[ℝ] F) (AH : F →ₗ[ℝ] E) (G : E →ₗ[ℝ] H) (GH : H →ₗ[ℝ] E) (y : F) (lam : ℝ)
+    (z : Option E) (hasProxg : Bool) (tau sigma : Option ℝ) (me : ℝ) :
+    let su := pdhgArgsNoG A AH y lam z hasProxg tau sigma me
+    let sg := pdhgArgsG A AH G GH y lam z hasProxg tau sigma me
+    (su.tau, su.sigma) = (sg.tau, sg.sigma) ∧
+    (su.tau, su.sigma) = (match tau, sigma with
+      | none, none => (1 / me, 1)
+      | none, some s => (1 / me, s)
+      | some t, none => (t, 1 / me)
+      | some t, some s => (t, s)) := by
+  cases tau <;> cases sigma <;> exact ⟨rfl, rfl⟩
 
 /-- the primal prox of the set-up without `G`, for every `(lamda, proxg)` case: `L2Reg` followed by the
     caller's prox with the rescaled step -/
-theorem primal_eval_noG (y : F) (lam : ℝ) (hl : 0 ≤ lam) (z : Option E) (hasProxg : Bool)
-    (user : ℝ → E → E) (a : ℝ) (v : E) :
-    (pdhgSetup (U := E) y lam z hasProxg false).proxg.eval user a v =
+theorem primal_eval_noG (A : E →ₗ[ℝ] F) (AH : F →ₗ[ℝ] E) (y : F) (lam : ℝ) (hl : 0 ≤ lam) (z : Option E)
+    (hasProxg : Bool) (tau sigma : Option ℝ) (me : ℝ) (user : ℝ → E → E) (a : ℝ) (v : E) :
+    (pdhgArgsNoG A AH y lam z hasProxg tau sigma me).proxg.eval user a v =
       (userTree hasProxg).eval user (a / (1 + lam * a)) (l2regOut lam z a v) := by
-  unfold pdhgSetup
+  simp only [pdhgArgsNoG]
   by_cases h : 0 < lam
   · cases hasProxg <;> simp [h, PD.eval, userTree]
   · have h0 : lam = 0 := le_antisymm (not_lt.mp h) hl
     subst h0
     cases hasProxg <;> cases z <;> simp [PD.eval, userTree, l2regOut]
 
-theorem primal_eval_G (y : F) (lam : ℝ) (hl : 0 ≤ lam) (z : Option E) (hasProxg : Bool)
+theorem primal_eval_G (A : E →ₗ[ℝ] F) (AH : F →ₗ[ℝ] E) (G : E →ₗ[ℝ] H) (GH : H →ₗ[ℝ] E) (y : F) (lam : ℝ)
+    (hl : 0 ≤ lam) (z : Option E) (hasProxg : Bool) (tau sigma : Option ℝ) (me : ℝ)
     (user : ℝ → E → E) (a : ℝ) (v : E) :
-    (pdhgSetup (U := H) y lam z hasProxg true).proxg.eval user a v = l2regOut lam z a v := by
-  unfold pdhgSetup
+    (pdhgArgsG A AH G GH y lam z hasProxg tau sigma me).proxg.eval user a v = l2regOut lam z a v := by
+  simp only [pdhgArgsG]
   by_cases h : 0 < lam
   · simp [h, PD.eval]
   · have h0 : lam = 0 := le_antisymm (not_lt.mp h) hl
@@ -377,12 +458,13 @@ theorem scale_help (τ c : ℝ) (hτ : τ ≠ 0) (hc : c ≠ 0) (m x : E) :
   rw [e2, mul_smul, smul_sub c, smul_smul c, mul_one_div_cancel hc, one_smul]
 
 /-- fixed point of the primal update without `G`: `x = prox(x - τ q) ⇔ -(q + λ(x - z)) ∈ ∂g(x)` -/
-theorem primal_fixed_noG (y : F) (lam : ℝ) (hl : 0 ≤ lam) (z : Option E) (hasProxg : Bool)
+theorem primal_fixed_noG (A : E →ₗ[ℝ] F) (AH : F →ₗ[ℝ] E) (y : F) (lam : ℝ) (hl : 0 ≤ lam) (z : Option E)
+    (hasProxg : Bool) (tau sigma : Option ℝ) (me : ℝ)
     (user : ℝ → E → E) (dg : E → Set E) (hu : hasProxg = true → IsProxOf user dg)
     (τ : ℝ) (hτ : 0 < τ) (x q : E) :
-    (pdhgSetup (U := E) y lam z hasProxg false).proxg.eval user τ (x - τ • q) = x ↔
+    (pdhgArgsNoG A AH y lam z hasProxg tau sigma me).proxg.eval user τ (x - τ • q) = x ↔
       -(q + lam • (x - zOf z)) ∈ effDg hasProxg dg x := by
-  rw [primal_eval_noG y lam hl]
+  rw [primal_eval_noG A AH y lam hl]
   have hc : 0 < 1 + lam * τ := by positivity
   rw [userTree_isProx hasProxg user dg hu (τ / (1 + lam * τ)) (by positivity)]
   have key : (1 / (τ / (1 + lam * τ))) • (l2regOut lam z τ (x - τ • q) - x) = -(q + lam • (x - zOf z)) := by
@@ -398,28 +480,27 @@ theorem primal_fixed_noG (y : F) (lam : ℝ) (hl : 0 ≤ lam) (z : Option E) (ha
   rw [key]
 
 /-- fixed point of the primal update with `G` (`L2Reg(x.shape, lamda, y=z)` or `NoOp`) -/
-theorem primal_fixed_G (y : F) (lam : ℝ) (hl : 0 ≤ lam) (z : Option E) (hasProxg : Bool)
+theorem primal_fixed_G (A : E →ₗ[ℝ] F) (AH : F →ₗ[ℝ] E) (G : E →ₗ[ℝ] H) (GH : H →ₗ[ℝ] E) (y : F) (lam : ℝ)
+    (hl : 0 ≤ lam) (z : Option E) (hasProxg : Bool) (tau sigma : Option ℝ) (me : ℝ)
     (user : ℝ → E → E) (τ : ℝ) (hτ : 0 < τ) (x q : E) :
-    (pdhgSetup (U := H) y lam z hasProxg true).proxg.eval user τ (x - τ • q) = x ↔
+    (pdhgArgsG A AH G GH y lam z hasProxg tau sigma me).proxg.eval user τ (x - τ • q) = x ↔
       q + lam • (x - zOf z) = 0 := by
-  rw [primal_eval_G y lam hl, l2reg_is_prox lam hl z τ hτ, Set.mem_singleton_iff, sub_sub_cancel_left,
+  rw [primal_eval_G A AH G GH y lam hl, l2reg_is_prox lam hl z τ hτ, Set.mem_singleton_iff, sub_sub_cancel_left,
     smul_neg, smul_smul, one_div, inv_mul_cancel₀ hτ.ne', one_smul, neg_eq_iff_add_eq_zero]
 
-/-- **PDHG without `G`.**  `(x, u)` is a fixed point of the primal–dual update built by
-    `_get_PrimalDualHybridGradient` (any `τ, σ > 0`; `λ ≥ 0`; `proxg` given or not; `z` given or not) iff
-    `u = A x - y` and `x` is a KKT point of the documented objective `½‖Ax-y‖² + g(x) + λ/2‖x-z‖²`. -/
+/-- **PDHG without `G`.**  `(x, u)` is a fixed point of the primal–dual update with the prox objects and the
+    operators `K`, `KH` built by `_get_PrimalDualHybridGradient` (any `τ, σ > 0`; `λ ≥ 0`; `proxg` given or not;
+    `z` given or not; whatever `tau`, `sigma` options) iff `u = A x - y` and `x` is a KKT point of the documented
+    objective `½‖Ax-y‖² + g(x) + λ/2‖x-z‖²`. -/
 theorem pdhg_fixed_point_kkt_noG (A : E →ₗ[ℝ] F) (AH : F →ₗ[ℝ] E) (y : F) (lam : ℝ) (hl : 0 ≤ lam)
-    (z : Option E) (hasProxg : Bool) (user : ℝ → E → E) (dg : E → Set E)
+    (z : Option E) (hasProxg : Bool) (tau sigma : Option ℝ) (me : ℝ) (user : ℝ → E → E) (dg : E → Set E)
     (hu : hasProxg = true → IsProxOf user dg) (τ σ : ℝ) (hτ : 0 < τ) (hσ : 0 < σ) (x : E) (u : F) :
-    let su := pdhgSetup (U := E) y lam z hasProxg false
-    (su.proxfc1.eval (fun _ v => v) σ (u + σ • A x) = u ∧ su.proxfc2 = none ∧
-      su.proxg.eval user τ (x - τ • AH u) = x) ↔
+    let su := pdhgArgsNoG A AH y lam z hasProxg tau sigma me
+    (su.proxfc.eval (fun _ v => v) σ (u + σ • su.K x) = u ∧ su.proxg.eval user τ (x - τ • su.KH u) = x) ↔
     (u = A x - y ∧ ∃ w, IsKKT A AH LinearMap.id LinearMap.id (effDg hasProxg dg) y lam (zOf z) x w) := by
   intro su
-  have h1 : su.proxfc1 = .l2reg 1 (some (-y)) := by simp [su, pdhgSetup]
-  have h2 : su.proxfc2 = none := by simp [su, pdhgSetup]
-  rw [h1, data_dual_fixed y u (A x) σ hσ, primal_fixed_noG y lam hl z hasProxg user dg hu τ hτ]
-  simp only [h2, true_and]
+  obtain ⟨h1, hK, hKH, -, -⟩ := pdhgArgs_parts_noG A AH y lam z hasProxg tau sigma me
+  rw [h1, hK, hKH, data_dual_fixed y u (A x) σ hσ, primal_fixed_noG A AH y lam hl z hasProxg tau sigma me user dg hu τ hτ]
   constructor
   · rintro ⟨hu1, hw⟩
     refine ⟨hu1, -(AH u + lam • (x - zOf z)), ?_, ?_⟩
@@ -431,35 +512,41 @@ theorem pdhg_fixed_point_kkt_noG (A : E →ₗ[ℝ] F) (AH : F →ₗ[ℝ] E) (y
       rw [hu1]; simp only [grad, LinearMap.id_coe, id_eq] at hst; exact eq_neg_of_add_eq_zero_right hst
     rw [← this]; simpa using hw
 
-/-- **PDHG with `G`.**  `(x, u₁, u₂)` is a fixed point of the update built with `Vstack([A, G])`,
+/-- **PDHG with `G`.**  `(x, u)` with `u = (u₁, u₂)` is a fixed point of the update built with `Vstack([A, G])`,
     `Stack([L2Reg(1, -y), Conj(proxg)])` and the primal `L2Reg(λ, z)`/`NoOp` iff `u₁ = A x - y` and `x` is a
     KKT point of `½‖Ax-y‖² + g(Gx) + λ/2‖x-z‖²` with multiplier `u₂ ∈ ∂g(G x)`.
     (At the pinned commit `λ/2‖·-z‖²` sat inside the conjugated prox of the `G` block: this theorem failed.) -/
 theorem pdhg_fixed_point_kkt_G (A : E →ₗ[ℝ] F) (AH : F →ₗ[ℝ] E) (G : E →ₗ[ℝ] H) (GH : H →ₗ[ℝ] E)
-    (y : F) (lam : ℝ) (hl : 0 ≤ lam) (z : Option E) (hasProxg : Bool) (user : ℝ → H → H) (userE : ℝ → E → E)
+    (y : F) (lam : ℝ) (hl : 0 ≤ lam) (z : Option E) (hasProxg : Bool) (tau sigma : Option ℝ) (me : ℝ)
+    (user : ℝ → H → H) (userE : ℝ → E → E)
     (dg : H → Set H) (hu : hasProxg = true → IsProxOf user dg) (τ σ : ℝ) (hτ : 0 < τ) (hσ : 0 < σ)
-    (x : E) (u1 : F) (u2 : H) :
-    let su := pdhgSetup (U := H) y lam z hasProxg true
-    (su.proxfc1.eval (fun _ v => v) σ (u1 + σ • A x) = u1 ∧
-      (∃ p2, su.proxfc2 = some p2 ∧ p2.eval user σ (u2 + σ • G x) = u2) ∧
-      su.proxg.eval userE τ (x - τ • (AH u1 + GH u2)) = x) ↔
-    (u1 = A x - y ∧ IsKKT A AH G GH (effDg hasProxg dg) y lam (zOf z) x u2) := by
+    (x : E) (u : Pair F H) :
+    let su := pdhgArgsG A AH G GH y lam z hasProxg tau sigma me
+    (su.proxfc.eval (fun _ v => v) user σ (u + σ • su.K x) = u ∧ su.proxg.eval userE τ (x - τ • su.KH u) = x) ↔
+    (u.fst = A x - y ∧ IsKKT A AH G GH (effDg hasProxg dg) y lam (zOf z) x u.snd) := by
   intro su
-  have h1 : su.proxfc1 = .l2reg 1 (some (-y)) := by simp [su, pdhgSetup]
-  have h2 : su.proxfc2 = some (.conj (userTree hasProxg)) := by simp [su, pdhgSetup, userTree]
-  rw [h1, data_dual_fixed y u1 (A x) σ hσ, primal_fixed_G y lam hl z hasProxg userE τ hτ]
-  simp only [h2, Option.some.injEq, exists_eq_left']
-  rw [conj_fixed_point (userTree hasProxg) user (effDg hasProxg dg) (userTree_isProx hasProxg user dg hu) σ hσ]
+  obtain ⟨h1, hK, hKH, -, -⟩ := pdhgArgs_parts_G A AH G GH y lam z hasProxg tau sigma me
+  obtain ⟨u1, u2⟩ := u
+  rw [h1, hK, hKH, primal_fixed_G A AH G GH y lam hl z hasProxg tau sigma me userE τ hτ]
+  simp only [PStack.eval, Pair.add_def, Pair.smul_def, Pair.mk.injEq]
+  rw [data_dual_fixed y u1 (A x) σ hσ,
+    conj_fixed_point (userTree hasProxg) user (effDg hasProxg dg) (userTree_isProx hasProxg user dg hu) σ hσ]
   unfold IsKKT grad
   constructor
-  · rintro ⟨hu1, hw, hst⟩
+  · rintro ⟨⟨hu1, hw⟩, hst⟩
     refine ⟨hu1, hw, ?_⟩
     rw [← hu1, ← hst]; abel
   · rintro ⟨hu1, hw, hst⟩
-    refine ⟨hu1, hw, ?_⟩
+    refine ⟨⟨hu1, hw⟩, ?_⟩
     rw [← hst, ← hu1]; abel
 
-/-! ## 6. ADMM set-up: fixed points = KKT points -/
+/-! ## 6. ADMM set-up (GENERATED `admmArgsNoG` / `admmArgsG`): fixed points = KKT points -/
+
+/-- what `minL_v` computes: `v = G x + u; if proxg is not None: v = proxg(1 / rho, v)` (specification) -/
+noncomputable def admmV (proxg : Option (ℝ → H → H)) (ρ : ℝ) (Gx u : H) : H :=
+  match proxg with
+  | none => Gx + u
+  | some p => p (1 / ρ) (Gx + u)
 
 theorem admmV_fixed (proxg : Option (ℝ → H → H)) (dg : H → Set H)
     (hp : ∀ p, proxg = some p → IsProxOf p dg) (ρ : ℝ) (hρ : 0 < ρ) (a u : H) :
@@ -470,31 +557,67 @@ theorem admmV_fixed (proxg : Option (ℝ → H → H)) (dg : H → Set H)
     simp only [admmV, effDg, Option.isSome_some, if_true]
     rw [hp p rfl (1 / ρ) (by positivity), add_sub_cancel_left, one_div_one_div]
 
+/-- bridging, no `G`: the closures and constructor arguments `_get_ADMM` builds.  `minL_x` solves
+    `(AᴴA + (λ+ρ)I) x = Aᴴy + ρ(v-u) + λz`; `minL_v` is `prox_{g/ρ}(x + u)`; `v` starts as a copy of `x`; the
+    constraint handed to `ADMM` is `I x + (-I) v = 0` -/
+theorem admmArgs_noG (A : E →ₗ[ℝ] F) (AH : F →ₗ[ℝ] E) (y : F) (lam : ℝ) (z : Option E) (ρ : ℝ)
+    (proxg : Option (ℝ → E → E)) (x v u h : E) :
+    let a := admmArgsNoG A AH y lam z ρ proxg
+    (a.minLx x v u).sys h = AH (A h) + (lam + ρ) • h ∧
+    (a.minLx x v u).rhs = AH y + ρ • (v - u) + lam • zOf z ∧
+    a.minLv x v u = admmV proxg ρ x u ∧ a.v0 x = x ∧ a.A x = x ∧ a.B v = -v ∧ a.c = 0 := by
+  refine ⟨?_, ?_, ?_, ?_, ?_, ?_, ?_⟩
+  · simp only [admmArgsNoG, opAdd, opN, opSmul, opId]; first | done | module
+  · cases z <;> simp only [admmArgsNoG, zOf, Option.getD_none, Option.getD_some, smul_zero, add_zero] <;>
+      first | done | module
+  · cases proxg <;> simp only [admmArgsNoG, admmV] <;> first | done | (congr 1; module)
+  · simp only [admmArgsNoG]
+  · simp only [admmArgsNoG, opId]
+  · simp only [admmArgsNoG, opNeg, opId]
+  · simp only [admmArgsNoG]
+
+/-- bridging, with `G`: `minL_x` solves `(AᴴA + λI + ρGᴴG) x = Aᴴy + ρGᴴ(v-u) + λz` (the source adds `λI` only
+    for `λ > 0`); `minL_v` is `prox_{g/ρ}(G x + u)`; `v` starts as `G x`; the constraint is `G x + (-I) v = 0` -/
+theorem admmArgs_G (A : E →ₗ[ℝ] F) (AH : F →ₗ[ℝ] E) (G : E →ₗ[ℝ] H) (GH : H →ₗ[ℝ] E) (y : F) (lam : ℝ)
+    (hl : 0 ≤ lam) (z : Option E) (ρ : ℝ) (proxg : Option (ℝ → H → H)) (x h : E) (v u : H) :
+    let a := admmArgsG A AH G GH y lam z ρ proxg
+    (a.minLx x v u).sys h = AH (A h) + lam • h + ρ • GH (G h) ∧
+    (a.minLx x v u).rhs = AH y + ρ • GH (v - u) + lam • zOf z ∧
+    a.minLv x v u = admmV proxg ρ (G x) u ∧ a.v0 x = G x ∧ a.A x = G x ∧ a.B v = -v ∧ a.c = 0 := by
+  refine ⟨?_, ?_, ?_, ?_, ?_, ?_, ?_⟩
+  · by_cases hpos : 0 < lam
+    · simp only [admmArgsG, hpos, if_true, opAdd, opN, opSmul, opId, opComp]; first | done | module
+    · obtain rfl : lam = 0 := le_antisymm (not_lt.mp hpos) hl
+      simp only [admmArgsG, lt_irrefl, if_false, opAdd, opN, opSmul, opId, opComp]; first | done | module
+  · cases z <;> simp only [admmArgsG, zOf, Option.getD_none, Option.getD_some, smul_zero, add_zero] <;>
+      first | done | module
+  · cases proxg <;> simp only [admmArgsG, admmV] <;> first | done | (congr 1; module)
+  · simp only [admmArgsG]
+  · simp only [admmArgsG]
+  · simp only [admmArgsG, opNeg, opId]
+  · simp only [admmArgsG]
+
 /-- **ADMM without `G`** (`v`-space = `x`-space, constraint `x - v = 0`).  `(x, v, u)` is left fixed by the three
-    updates of `_get_ADMM` — `x` solves the `minL_x` system `(AᴴA + (λ+ρ)I) x = Aᴴy + ρ(v-u) (+ λz)`,
-    `v = prox_{g/ρ}(x + u)`, `u += x - v` — iff `v = x` and `x` is a KKT point of the documented objective with
+    updates of the GENERATED `_get_ADMM` set-up — `x` solves the `minL_x` system, `v = minL_v`, `u += A x + B v`
+    (`c = 0`, see `admmArgs_noG`) — iff `v = x` and `x` is a KKT point of the documented objective with
     multiplier `ρ u`. -/
 theorem admm_fixed_point_kkt_noG (A : E →ₗ[ℝ] F) (AH : F →ₗ[ℝ] E) (y : F) (lam : ℝ) (z : Option E)
     (proxg : Option (ℝ → E → E)) (dg : E → Set E) (hp : ∀ p, proxg = some p → IsProxOf p dg)
     (ρ : ℝ) (hρ : 0 < ρ) (x v u : E) :
-    (admmSysNoG A AH lam ρ x = admmRhsNoG AH y lam z ρ v u ∧ admmV proxg ρ x u = v ∧ admmU u x v = u) ↔
+    let a := admmArgsNoG A AH y lam z ρ proxg
+    ((a.minLx x v u).sys x = (a.minLx x v u).rhs ∧ a.minLv x v u = v ∧ u + (a.A x + a.B v) = u) ↔
     (v = x ∧ IsKKT A AH LinearMap.id LinearMap.id (effDg proxg.isSome dg) y lam (zOf z) x (ρ • u)) := by
-  have hU : admmU u x v = u ↔ v = x := by
-    unfold admmU; rw [add_eq_left, sub_eq_zero, eq_comm]
-  have hS : admmSysNoG A AH lam ρ x = admmRhsNoG AH y lam z ρ x u ↔
+  intro a
+  obtain ⟨e1, e2, e3, -, e5, e6, -⟩ := admmArgs_noG A AH y lam z ρ proxg x v u x
+  rw [e1, e2, e3, e5, e6]
+  have hU : u + (x + -v) = u ↔ v = x := by
+    rw [add_eq_left, ← sub_eq_add_neg, sub_eq_zero, eq_comm]
+  have hS : AH (A x) + (lam + ρ) • x = AH y + ρ • (x - u) + lam • zOf z ↔
       grad A AH y lam (zOf z) x + ρ • u = 0 := by
-    unfold admmSysNoG admmRhsNoG addLamZ grad zOf
     rw [← sub_eq_zero]
-    cases z with
-    | none =>
-      simp only [Option.getD_none, sub_zero, map_sub]
-      have : AH (A x) + (lam + ρ) • x - (AH y + ρ • (x - u)) = AH (A x) - AH y + lam • x + ρ • u := by module
-      rw [this]
-    | some z =>
-      simp only [Option.getD_some, map_sub]
-      have : AH (A x) + (lam + ρ) • x - (AH y + ρ • (x - u) + lam • z) =
-          AH (A x) - AH y + lam • (x - z) + ρ • u := by module
-      rw [this]
+    have : AH (A x) + (lam + ρ) • x - (AH y + ρ • (x - u) + lam • zOf z) =
+        grad A AH y lam (zOf z) x + ρ • u := by simp only [grad, map_sub]; module
+    rw [this]
   unfold IsKKT
   simp only [LinearMap.id_coe, id_eq]
   constructor
@@ -504,38 +627,27 @@ theorem admm_fixed_point_kkt_noG (A : E →ₗ[ℝ] F) (AH : F →ₗ[ℝ] E) (y
   · rintro ⟨rfl, hw, hst⟩
     exact ⟨hS.mpr hst, (admmV_fixed proxg dg hp ρ hρ v u).mpr hw, hU.mpr rfl⟩
 
-/-- **ADMM with `G`** (constraint `G x - v = 0`).  Fixed points of `minL_x` (system
-    `(AᴴA (+ λI) + ρGᴴG) x = Aᴴy + ρGᴴ(v-u) (+ λz)`), `minL_v` (`v = prox_{g/ρ}(G x + u)`) and `u += G x - v`
+/-- **ADMM with `G`** (constraint `G x - v = 0`).  Fixed points of the GENERATED `minL_x` (system
+    `(AᴴA (+ λI) + ρGᴴG) x = Aᴴy + ρGᴴ(v-u) (+ λz)`), `minL_v` (`v = prox_{g/ρ}(G x + u)`) and `u += A x + B v`
     are exactly: `v = G x` and `x` a KKT point of `½‖Ax-y‖² + g(Gx) + λ/2‖x-z‖²` with multiplier `ρ u`. -/
 theorem admm_fixed_point_kkt_G (A : E →ₗ[ℝ] F) (AH : F →ₗ[ℝ] E) (G : E →ₗ[ℝ] H) (GH : H →ₗ[ℝ] E)
     (y : F) (lam : ℝ) (hl : 0 ≤ lam) (z : Option E)
     (proxg : Option (ℝ → H → H)) (dg : H → Set H) (hp : ∀ p, proxg = some p → IsProxOf p dg)
     (ρ : ℝ) (hρ : 0 < ρ) (x : E) (v u : H) :
-    (admmSysG A AH G GH lam ρ x = admmRhsG AH GH y lam z ρ v u ∧ admmV proxg ρ (G x) u = v ∧
-      admmU u (G x) v = u) ↔
+    let a := admmArgsG A AH G GH y lam z ρ proxg
+    ((a.minLx x v u).sys x = (a.minLx x v u).rhs ∧ a.minLv x v u = v ∧ u + (a.A x + a.B v) = u) ↔
     (v = G x ∧ IsKKT A AH G GH (effDg proxg.isSome dg) y lam (zOf z) x (ρ • u)) := by
-  have hU : admmU u (G x) v = u ↔ v = G x := by
-    unfold admmU; rw [add_eq_left, sub_eq_zero, eq_comm]
-  have hS : admmSysG A AH G GH lam ρ x = admmRhsG AH GH y lam z ρ (G x) u ↔
+  intro a
+  obtain ⟨e1, e2, e3, -, e5, e6, -⟩ := admmArgs_G A AH G GH y lam hl z ρ proxg x x v u
+  rw [e1, e2, e3, e5, e6]
+  have hU : u + (G x + -v) = u ↔ v = G x := by
+    rw [add_eq_left, ← sub_eq_add_neg, sub_eq_zero, eq_comm]
+  have hS : AH (A x) + lam • x + ρ • GH (G x) = AH y + ρ • GH (G x - u) + lam • zOf z ↔
       grad A AH y lam (zOf z) x + GH (ρ • u) = 0 := by
-    have hsys : (if 0 < lam then AH (A x) + lam • x else AH (A x)) = AH (A x) + lam • x := by
-      by_cases h : 0 < lam
-      · simp [h]
-      · have h0 : lam = 0 := le_antisymm (not_lt.mp h) hl
-        simp [h0]
-    unfold admmSysG admmRhsG addLamZ grad zOf
-    rw [hsys, ← sub_eq_zero]
-    cases z with
-    | none =>
-      simp only [Option.getD_none, sub_zero, map_sub, map_smul]
-      have : AH (A x) + lam • x + ρ • GH (G x) - (AH y + ρ • (GH (G x) - GH u)) =
-          AH (A x) - AH y + lam • x + ρ • GH u := by module
-      rw [this]
-    | some z =>
-      simp only [Option.getD_some, map_sub, map_smul]
-      have : AH (A x) + lam • x + ρ • GH (G x) - (AH y + ρ • (GH (G x) - GH u) + lam • z) =
-          AH (A x) - AH y + lam • (x - z) + ρ • GH u := by module
-      rw [this]
+    rw [← sub_eq_zero]
+    have : AH (A x) + lam • x + ρ • GH (G x) - (AH y + ρ • GH (G x - u) + lam • zOf z) =
+        grad A AH y lam (zOf z) x + GH (ρ • u) := by simp only [grad, map_sub, map_smul]; module
+    rw [this]
   unfold IsKKT
   constructor
   · rintro ⟨h1, h2, h3⟩
@@ -544,7 +656,209 @@ theorem admm_fixed_point_kkt_G (A : E →ₗ[ℝ] F) (AH : F →ₗ[ℝ] E) (G :
   · rintro ⟨rfl, hw, hst⟩
     exact ⟨hS.mpr hst, (admmV_fixed proxg dg hp ρ hρ (G x) u).mpr hw, hU.mpr rfl⟩
 
-/-! ## 7. the hypotheses are satisfiable (non-vacuity) -/
+/-! ## 7. `default_steps`: the step sizes the set-ups choose satisfy the step conditions of the solvers' theorems
+
+  `max_eig` is the number `MaxEig(op).run()` returned for the operator `op` the GENERATED set-up hands to it.
+  The hypothesis `hR` says that `max_eig` bounds the Rayleigh quotient of that operator (`⟨h, op h⟩ ≤ max_eig ‖h‖²`),
+  which holds when `max_eig = λmax(op)` exactly.  NOT modelled: the power method returns an UNDER-estimate of
+  `λmax` after finitely many iterations (then `alpha` may exceed `1/L` slightly) — that stays with the search. -/
+
+/-- `⟨h, (AᴴA + λI) h⟩ = ‖A h‖² + λ‖h‖²` -/
+theorem hessian_quad (A : E →ₗ[ℝ] F) (AH : F →ₗ[ℝ] E) (hA : IsAdj A AH) (lam : ℝ) (h : E) :
+    ⟪h, AH (A h) + lam • h⟫ = ‖A h‖ ^ 2 + lam * ‖h‖ ^ 2 := by
+  rw [inner_add_right, ← hA, inner_smul_right, real_inner_self_eq_norm_sq, real_inner_self_eq_norm_sq]
+
+/-- the smooth part lies above its tangent planes for `λ ≥ 0` (`ConvexGrad` of C13's ista/fista theorems, with
+    the GENERATED `gradf`) -/
+theorem gm_convex_grad (A : E →ₗ[ℝ] F) (AH : F →ₗ[ℝ] E) (hA : IsAdj A AH) (y : F) (lam : ℝ) (hl : 0 ≤ lam)
+    (z : Option E) (alpha : Option ℝ) (me : ℝ) (x w : E) :
+    smooth A y lam (zOf z) x + ⟪(gmArgs A AH y lam z alpha me).gradf x, w - x⟫ ≤ smooth A y lam (zOf z) w := by
+  have h1 := obj_expand A AH hA y lam (zOf z) x (w - x)
+  rw [add_sub_cancel] at h1
+  rw [gm_gradient, h1]
+  have h5 : 0 ≤ 1 / 2 * ‖A (w - x)‖ ^ 2 := by positivity
+  have h6 : 0 ≤ lam / 2 * ‖w - x‖ ^ 2 := by positivity
+  linarith
+
+/-- **default step of GradientMethod.**  With `alpha=None` the set-up runs `MaxEig` on the Hessian `AᴴA + λI` and
+    takes `alpha = 1/max_eig` (`1` if `max_eig == 0`).  If `max_eig` bounds the Rayleigh quotient of the operator
+    that was handed to `MaxEig` (exact `λmax`), then `L := max_eig` and `alpha` satisfy exactly the hypotheses of
+    C13's `ista_rate` / `fista_rate`: `0 < alpha`, `alpha * L ≤ 1`, and the descent lemma
+    `f(p) ≤ f(x) + ⟨gradf x, p - x⟩ + L/2 ‖p - x‖²` for the smooth part `f` with the generated `gradf`. -/
+theorem default_steps_gm (A : E →ₗ[ℝ] F) (AH : F →ₗ[ℝ] E) (hA : IsAdj A AH) (y : F) (lam : ℝ) (z : Option E)
+    (me : ℝ) (hme : 0 ≤ me)
+    (hR : ∀ f, (gmArgs A AH y lam z none me).eig = .primal f → ∀ h, ⟪h, f h⟫ ≤ me * ‖h‖ ^ 2) :
+    let a := gmArgs A AH y lam z none me
+    0 < a.alpha ∧ a.alpha * me ≤ 1 ∧
+    ∀ x p, smooth A y lam (zOf z) p ≤ smooth A y lam (zOf z) x + ⟪a.gradf x, p - x⟫ + me / 2 * ‖p - x‖ ^ 2 := by
+  intro a
+  obtain ⟨⟨f, hf, hf'⟩, -⟩ := gmArgs_eig A AH y lam z me
+  have hal : a.alpha = if me = 0 then 1 else 1 / me := (gmArgs_alpha A AH y lam z me).1
+  refine ⟨?_, ?_, fun x p => ?_⟩
+  · rw [hal]; split_ifs with h0
+    · exact one_pos
+    · exact one_div_pos.mpr (lt_of_le_of_ne hme (Ne.symm h0))
+  · rw [hal]; split_ifs with h0
+    · rw [h0]; norm_num
+    · rw [one_div, inv_mul_cancel₀ h0]
+  · have h1 := obj_expand A AH hA y lam (zOf z) x (p - x)
+    rw [add_sub_cancel] at h1
+    have h2 := hR f hf (p - x)
+    rw [hf', hessian_quad A AH hA] at h2
+    rw [gm_gradient, h1]
+    linarith
+
+/-- the operator `_get_PrimalDualHybridGradient` hands to `MaxEig`, without `G`: `Aᴴ S A` with `S = sigma` (1 when
+    not given) when `tau` is not given; `A T Aᴴ` when only `tau` is given; none when both are given -/
+theorem pdhgArgs_eig_noG (A : E →ₗ[ℝ] F) (AH : F →ₗ[ℝ] E) (y : F) (lam : ℝ) (z : Option E) (hasProxg : Bool)
+    (me : ℝ) :
+    (∀ sigma, ∃ f, (pdhgArgsNoG A AH y lam z hasProxg none sigma me).eig = .primal f ∧
+      ∀ x, f x = AH (sigma.getD 1 • A x)) ∧
+    (∀ t, ∃ f, (pdhgArgsNoG A AH y lam z hasProxg (some t) none me).eig = .dual f ∧ ∀ u, f u = A (t • AH u)) ∧
+    (∀ t s, (pdhgArgsNoG A AH y lam z hasProxg (some t) (some s) me).eig = .none) := by
+  refine ⟨fun sigma => ⟨_, rfl, fun x => ?_⟩, fun t => ⟨_, rfl, fun u => ?_⟩, fun t s => rfl⟩
+  · cases sigma <;> simp only [opComp, opMul, Option.getD_none, Option.getD_some]
+  · simp only [opComp, opMul]
+
+/-- the same with `G`: `Kᴴ S K = Aᴴ S A + Gᴴ S G` on the primal side, `K T Kᴴ` (blockwise) on the dual side -/
+theorem pdhgArgs_eig_G (A : E →ₗ[ℝ] F) (AH : F →ₗ[ℝ] E) (G : E →ₗ[ℝ] H) (GH : H →ₗ[ℝ] E) (y : F) (lam : ℝ)
+    (z : Option E) (hasProxg : Bool) (me : ℝ) :
+    (∀ sigma, ∃ f, (pdhgArgsG A AH G GH y lam z hasProxg none sigma me).eig = .primal f ∧
+      ∀ x, f x = AH (sigma.getD 1 • A x) + GH (sigma.getD 1 • G x)) ∧
+    (∀ t, ∃ f, (pdhgArgsG A AH G GH y lam z hasProxg (some t) none me).eig = .dual f ∧
+      ∀ u, f u = ⟨A (t • (AH u.fst + GH u.snd)), G (t • (AH u.fst + GH u.snd))⟩) ∧
+    (∀ t s, (pdhgArgsG A AH G GH y lam z hasProxg (some t) (some s) me).eig = .none) := by
+  refine ⟨fun sigma => ⟨_, rfl, fun x => ?_⟩, fun t => ⟨_, rfl, fun u => ?_⟩, fun t s => rfl⟩
+  · cases sigma <;> simp only [opComp, opMul, opVstack, opHstack, Pair.smul_def, Option.getD_none, Option.getD_some]
+  · simp only [opComp, opMul, opVstack, opHstack]
+
+/-- **default `tau` of PDHG, without `G`.**  With `tau=None` the set-up takes `tau = 1/max_eig` of `Aᴴ S A` and
+    `sigma` (1 when not given).  If `max_eig` bounds the Rayleigh quotient of the operator that was handed to
+    `MaxEig`, the step condition `τ σ ‖K x‖² ≤ ‖x‖²` (`τσ‖K‖² ≤ 1`) of the PDHG convergence theorems holds for the
+    `K` handed to the solver. -/
+theorem default_steps_pdhg_primal_noG (A : E →ₗ[ℝ] F) (AH : F →ₗ[ℝ] E) (hA : IsAdj A AH) (y : F) (lam : ℝ)
+    (z : Option E) (hasProxg : Bool) (sigma : Option ℝ) (hσ : ∀ s, sigma = some s → 0 < s) (me : ℝ) (hme : 0 < me)
+    (hR : ∀ f, (pdhgArgsNoG A AH y lam z hasProxg none sigma me).eig = .primal f → ∀ x, ⟪x, f x⟫ ≤ me * ‖x‖ ^ 2) :
+    let su := pdhgArgsNoG A AH y lam z hasProxg none sigma me
+    0 < su.tau ∧ 0 < su.sigma ∧ ∀ x, su.tau * su.sigma * ‖su.K x‖ ^ 2 ≤ ‖x‖ ^ 2 := by
+  intro su
+  obtain ⟨f, hf, hf'⟩ := (pdhgArgs_eig_noG A AH y lam z hasProxg me).1 sigma
+  obtain ⟨-, hK, -, -, -⟩ := pdhgArgs_parts_noG A AH y lam z hasProxg none sigma me
+  have hst := (pdhgArgs_steps A AH (0 : E →ₗ[ℝ] E) 0 y lam z hasProxg none sigma me).2
+  have hts : su.tau = 1 / me ∧ su.sigma = sigma.getD 1 := by
+    cases sigma <;> simpa [Prod.ext_iff] using hst
+  have hs : 0 < sigma.getD 1 := by
+    cases sigma with
+    | none => exact one_pos
+    | some s => exact hσ s rfl
+  refine ⟨by rw [hts.1]; positivity, by rw [hts.2]; exact hs, fun x => ?_⟩
+  have h2 := hR f hf x
+  rw [hf', ← hA, inner_smul_right, real_inner_self_eq_norm_sq] at h2
+  rw [hK, hts.1, hts.2, one_div, mul_assoc, inv_mul_le_iff₀ hme]
+  exact h2
+
+/-- **default `tau` of PDHG, with `G`**: `τ σ (‖A x‖² + ‖G x‖²) ≤ ‖x‖²` for `K = Vstack([A, G])`. -/
+theorem default_steps_pdhg_primal_G (A : E →ₗ[ℝ] F) (AH : F →ₗ[ℝ] E) (hA : IsAdj A AH) (G : E →ₗ[ℝ] H)
+    (GH : H →ₗ[ℝ] E) (hG : IsAdj G GH) (y : F) (lam : ℝ) (z : Option E) (hasProxg : Bool) (sigma : Option ℝ)
+    (hσ : ∀ s, sigma = some s → 0 < s) (me : ℝ) (hme : 0 < me)
+    (hR : ∀ f, (pdhgArgsG A AH G GH y lam z hasProxg none sigma me).eig = .primal f →
+      ∀ x, ⟪x, f x⟫ ≤ me * ‖x‖ ^ 2) :
+    let su := pdhgArgsG A AH G GH y lam z hasProxg none sigma me
+    0 < su.tau ∧ 0 < su.sigma ∧
+      ∀ x, su.tau * su.sigma * (‖(su.K x).fst‖ ^ 2 + ‖(su.K x).snd‖ ^ 2) ≤ ‖x‖ ^ 2 := by
+  intro su
+  obtain ⟨f, hf, hf'⟩ := (pdhgArgs_eig_G A AH G GH y lam z hasProxg me).1 sigma
+  obtain ⟨-, hK, -, -, -⟩ := pdhgArgs_parts_G A AH G GH y lam z hasProxg none sigma me
+  obtain ⟨hst0, hst⟩ := pdhgArgs_steps A AH G GH y lam z hasProxg none sigma me
+  rw [hst0] at hst
+  have hts : su.tau = 1 / me ∧ su.sigma = sigma.getD 1 := by
+    cases sigma <;> simpa [Prod.ext_iff] using hst
+  have hs : 0 < sigma.getD 1 := by
+    cases sigma with
+    | none => exact one_pos
+    | some s => exact hσ s rfl
+  refine ⟨by rw [hts.1]; positivity, by rw [hts.2]; exact hs, fun x => ?_⟩
+  have h2 := hR f hf x
+  rw [hf', inner_add_right, ← hA, ← hG, inner_smul_right, inner_smul_right, real_inner_self_eq_norm_sq,
+    real_inner_self_eq_norm_sq, ← mul_add] at h2
+  rw [hK, hts.1, hts.2, one_div, mul_assoc, inv_mul_le_iff₀ hme]
+  exact h2
+
+/-- **default `sigma` of PDHG (only `tau` given), without `G`**: `sigma = 1/max_eig` of `A T Aᴴ`; with `max_eig`
+    a Rayleigh bound, `τ σ ‖Kᴴ u‖² ≤ ‖u‖²` (the same condition `τσ‖K‖² ≤ 1`, stated on the adjoint). -/
+theorem default_steps_pdhg_dual_noG (A : E →ₗ[ℝ] F) (AH : F →ₗ[ℝ] E) (hA : IsAdj A AH) (y : F) (lam : ℝ)
+    (z : Option E) (hasProxg : Bool) (t : ℝ) (me : ℝ) (hme : 0 < me)
+    (hR : ∀ f, (pdhgArgsNoG A AH y lam z hasProxg (some t) none me).eig = .dual f → ∀ u, ⟪u, f u⟫ ≤ me * ‖u‖ ^ 2) :
+    let su := pdhgArgsNoG A AH y lam z hasProxg (some t) none me
+    su.tau = t ∧ 0 < su.sigma ∧ ∀ u, su.tau * su.sigma * ‖su.KH u‖ ^ 2 ≤ ‖u‖ ^ 2 := by
+  intro su
+  obtain ⟨f, hf, hf'⟩ := (pdhgArgs_eig_noG A AH y lam z hasProxg me).2.1 t
+  obtain ⟨-, -, hKH, -, -⟩ := pdhgArgs_parts_noG A AH y lam z hasProxg (some t) none me
+  have hst := (pdhgArgs_steps A AH (0 : E →ₗ[ℝ] E) 0 y lam z hasProxg (some t) none me).2
+  have hts : su.tau = t ∧ su.sigma = 1 / me := by simpa [Prod.ext_iff] using hst
+  refine ⟨hts.1, by rw [hts.2]; positivity, fun u => ?_⟩
+  have h2 := hR f hf u
+  rw [hf', real_inner_comm, hA, inner_smul_left, real_inner_self_eq_norm_sq] at h2
+  simp only [RCLike.conj_to_real] at h2
+  rw [hKH, hts.1, hts.2, mul_comm t, mul_assoc, one_div, inv_mul_le_iff₀ hme]
+  exact h2
+
+/-- **default `sigma` of PDHG (only `tau` given), with `G`**: `τ σ ‖Aᴴu₁ + Gᴴu₂‖² ≤ ‖u₁‖² + ‖u₂‖²`, the Rayleigh
+    bound being stated blockwise on the product space. -/
+theorem default_steps_pdhg_dual_G (A : E →ₗ[ℝ] F) (AH : F →ₗ[ℝ] E) (hA : IsAdj A AH) (G : E →ₗ[ℝ] H)
+    (GH : H →ₗ[ℝ] E) (hG : IsAdj G GH) (y : F) (lam : ℝ) (z : Option E) (hasProxg : Bool) (t : ℝ) (me : ℝ)
+    (hme : 0 < me)
+    (hR : ∀ f, (pdhgArgsG A AH G GH y lam z hasProxg (some t) none me).eig = .dual f →
+      ∀ u : Pair F H, ⟪u.fst, (f u).fst⟫ + ⟪u.snd, (f u).snd⟫ ≤ me * (‖u.fst‖ ^ 2 + ‖u.snd‖ ^ 2)) :
+    let su := pdhgArgsG A AH G GH y lam z hasProxg (some t) none me
+    su.tau = t ∧ 0 < su.sigma ∧ ∀ u, su.tau * su.sigma * ‖su.KH u‖ ^ 2 ≤ ‖u.fst‖ ^ 2 + ‖u.snd‖ ^ 2 := by
+  intro su
+  obtain ⟨f, hf, hf'⟩ := (pdhgArgs_eig_G A AH G GH y lam z hasProxg me).2.1 t
+  obtain ⟨-, -, hKH, -, -⟩ := pdhgArgs_parts_G A AH G GH y lam z hasProxg (some t) none me
+  obtain ⟨hst0, hst⟩ := pdhgArgs_steps A AH G GH y lam z hasProxg (some t) none me
+  rw [hst0] at hst
+  have hts : su.tau = t ∧ su.sigma = 1 / me := by simpa [Prod.ext_iff] using hst
+  refine ⟨hts.1, by rw [hts.2]; positivity, fun u => ?_⟩
+  have h2 := hR f hf u
+  rw [hf'] at h2
+  simp only at h2
+  rw [real_inner_comm, hA, real_inner_comm (G _), hG, ← inner_add_right, real_inner_comm, inner_smul_right,
+    real_inner_self_eq_norm_sq] at h2
+  rw [hKH, hts.1, hts.2, mul_comm t, mul_assoc, one_div, inv_mul_le_iff₀ hme]
+  exact h2
+
+/-- **`default_steps`**: the defaults of both first-order set-ups at once (`alpha=None`; `tau=None`, with and
+    without `G`) — see `default_steps_gm`, `default_steps_pdhg_primal_noG`, `default_steps_pdhg_primal_G`. -/
+theorem default_steps (A : E →ₗ[ℝ] F) (AH : F →ₗ[ℝ] E) (hA : IsAdj A AH) (G : E →ₗ[ℝ] H) (GH : H →ₗ[ℝ] E)
+    (hG : IsAdj G GH) (y : F) (lam : ℝ) (z : Option E) (hasProxg : Bool) (sigma : Option ℝ)
+    (hσ : ∀ s, sigma = some s → 0 < s) (me : ℝ) (hme : 0 < me) :
+    (let a := gmArgs A AH y lam z none me
+     (∀ f, a.eig = .primal f → ∀ h, ⟪h, f h⟫ ≤ me * ‖h‖ ^ 2) →
+      0 < a.alpha ∧ a.alpha * me ≤ 1 ∧
+      ∀ x p, smooth A y lam (zOf z) p ≤ smooth A y lam (zOf z) x + ⟪a.gradf x, p - x⟫ + me / 2 * ‖p - x‖ ^ 2) ∧
+    (let su := pdhgArgsNoG A AH y lam z hasProxg none sigma me
+     (∀ f, su.eig = .primal f → ∀ x, ⟪x, f x⟫ ≤ me * ‖x‖ ^ 2) →
+      0 < su.tau ∧ 0 < su.sigma ∧ ∀ x, su.tau * su.sigma * ‖su.K x‖ ^ 2 ≤ ‖x‖ ^ 2) ∧
+    (let su := pdhgArgsG A AH G GH y lam z hasProxg none sigma me
+     (∀ f, su.eig = .primal f → ∀ x, ⟪x, f x⟫ ≤ me * ‖x‖ ^ 2) →
+      0 < su.tau ∧ 0 < su.sigma ∧
+      ∀ x, su.tau * su.sigma * (‖(su.K x).fst‖ ^ 2 + ‖(su.K x).snd‖ ^ 2) ≤ ‖x‖ ^ 2) :=
+  ⟨fun hR => default_steps_gm A AH hA y lam z me hme.le hR,
+   fun hR => default_steps_pdhg_primal_noG A AH hA y lam z hasProxg sigma hσ me hme hR,
+   fun hR => default_steps_pdhg_primal_G A AH hA G GH hG y lam z hasProxg sigma hσ me hme hR⟩
+
+/-- non-vacuity of the Rayleigh hypothesis: `A = I`, `λ = 1`: the Hessian is `2I` and `max_eig = 2` is exact -/
+example (y : E) (z : Option E) (f : E → E)
+    (hf : (gmArgs (LinearMap.id : E →ₗ[ℝ] E) (LinearMap.id : E →ₗ[ℝ] E) y (1 : ℝ) z none (2 : ℝ)).eig = .primal f) (h : E) :
+    ⟪h, f h⟫ ≤ 2 * ‖h‖ ^ 2 := by
+  obtain ⟨⟨f', hf1, hf2⟩, -⟩ := gmArgs_eig (LinearMap.id : E →ₗ[ℝ] E) LinearMap.id y 1 z 2
+  rw [hf] at hf1
+  obtain rfl : f = f' := by injection hf1
+  have hid : IsAdj (LinearMap.id : E →ₗ[ℝ] E) LinearMap.id := fun _ _ => rfl
+  rw [hf2, hessian_quad _ _ hid]
+  simp only [LinearMap.id_coe, id_eq]; linarith
+
+/-! ## 8. the hypotheses are satisfiable (non-vacuity) -/
 
 example : IsAdj (LinearMap.id : E →ₗ[ℝ] E) LinearMap.id := fun _ _ => rfl
 
@@ -566,11 +880,12 @@ example (c : ℝ) (hc : 0 ≤ c) (p w : H) (hw : w ∈ ({c • p} : Set H)) (q :
   have h2 : 0 ≤ c / 2 * ‖q - p‖ ^ 2 := by positivity
   rw [hw, inner_smul_left, h]; simp only [RCLike.conj_to_real]; nlinarith
 
-/-- the two pinned-commit regressions as statements about the model: the CG right-hand side contains `λ z`,
-    and with `G` the set-up keeps `L2Reg(λ, z)` on the primal variable -/
-example (y : F) (lam : ℝ) (hl : 0 < lam) (z : Option E) (b : Bool) :
-    (pdhgSetup (U := H) y lam z b true).proxg = .l2reg lam z ∧
-    (pdhgSetup (U := H) y lam z b true).gammaD = 0 ∧ (pdhgSetup (U := H) y lam z b true).gammaP = lam := by
-  simp [pdhgSetup, hl]
+/-- the two pinned-commit regressions as statements about the generated set-up: with `G` the set-up keeps
+    `L2Reg(λ, z)` on the primal variable, `gamma_dual = 0`, `gamma_primal = λ` -/
+example (A : E →ₗ[ℝ] F) (AH : F →ₗ[ℝ] E) (G : E →ₗ[ℝ] H) (GH : H →ₗ[ℝ] E) (y : F) (lam : ℝ) (hl : 0 < lam)
+    (z : Option E) (b : Bool) (t s : Option ℝ) (me : ℝ) :
+    (pdhgArgsG A AH G GH y lam z b t s me).proxg = .l2reg lam z ∧
+    (pdhgArgsG A AH G GH y lam z b t s me).gammaD = 0 ∧ (pdhgArgsG A AH G GH y lam z b t s me).gammaP = lam := by
+  simp [pdhgArgsG, hl]
 
 end SigpyVerif.C14
